@@ -56,3 +56,170 @@ Theorem type_order_permutation :
    (nthN obj_type_order t HWLOC_OBJ_TYPE_MAX <? HWLOC_OBJ_TYPE_MAX)) = true.
 Proof. apply forall_types. vm_compute. reflexivity. Qed.
 Print Assumptions type_order_permutation.
+
+(* ====================================================================== *)
+(* Type names: hwloc_type_sscanf, hwloc_obj_type_snprintf, hwloc_obj_attr_snprintf
+   (models Text/TypeNames.v, lemmas Text/TypeNamesProofs.v).  The statements are
+   about the current code: the two variant constants of TypeNames.v say which
+   of the modelled variants that is. *)
+From Coq Require Import String.
+From HV Require Import Base.Bytes Base.Snprintf Text.TypeNames Text.TypeNamesProofs.
+Import ListNotations.
+Local Open Scope string_scope.
+
+(* ---- the tie of the hand-written keyword chain: equal to the C function on
+   the regenerated dictionary (1518 words built from every keyword) ---- *)
+Theorem type_sscanf_model_agrees_on_dictionary :
+  forallb (dict_ok TYPE_MATCH_STOPS_AT_LITERAL_END) type_sscanf_dict_tbl = true.
+Proof. exact (dict_agrees_chk TYPE_MATCH_STOPS_AT_LITERAL_END). Qed.
+Print Assumptions type_sscanf_model_agrees_on_dictionary.
+
+Theorem osdev_names_cover_the_osdev_bits :
+  osdev_known_mask = N.lor HWLOC_OBJ_OSDEV_STORAGE (N.lor HWLOC_OBJ_OSDEV_MEMORY (N.lor HWLOC_OBJ_OSDEV_GPU
+     (N.lor HWLOC_OBJ_OSDEV_COPROC (N.lor HWLOC_OBJ_OSDEV_NETWORK (N.lor HWLOC_OBJ_OSDEV_OPENFABRICS HWLOC_OBJ_OSDEV_DMA)))))
+  /\ NoDup (map osdev_bit osdev_names_tbl) /\ List.length osdev_names_tbl = 7%nat.
+Proof. exact names_cover_osdev_bits. Qed.
+Print Assumptions osdev_names_cover_the_osdev_bits.
+
+(* ---- round trip ---- *)
+(* [roundtrip_ok chk loop o flags]: the printer returns a text, hwloc_type_sscanf accepts it (with a
+   full-size attribute union, and with attrp = NULL), returns the type of o and stores exactly o's cache
+   depth/type, group depth, bridge upstream/downstream type, OS-device type set.
+   Finite part, bound: every object that agrees on (type, printed attributes) with one of the 153
+   canonical objects of [rt_objs] = 9 attribute-less types, the 13 (depth 1..5, cache type) pairs of
+   hwloc_cache_type_by_depth_type, Bridge host/PCI -> PCI, all 128 OS-device words made of the bits of
+   names[], Group without depth; every flag word without SHORT_NAMES. *)
+Theorem type_roundtrip :
+  forall o o' flags, In o' rt_objs -> to_type o = to_type o' -> tkey o = tkey o' ->
+  N.land flags HWLOC_OBJ_SNPRINTF_FLAG_SHORT_NAMES = 0 ->
+  roundtrip_ok TYPE_MATCH_STOPS_AT_LITERAL_END OSDEV_PRINT_WHILE o flags = true.
+Proof. exact (roundtrip_lift TYPE_MATCH_STOPS_AT_LITERAL_END OSDEV_PRINT_WHILE). Qed.
+Print Assumptions type_roundtrip.
+
+(* the same, in words, for OS devices: every type word made of the bits of names[] *)
+Theorem type_roundtrip_osdev :
+  forall o flags, to_type o = HWLOC_OBJ_OS_DEVICE -> to_os o <= osdev_known_mask ->
+  N.land flags HWLOC_OBJ_SNPRINTF_FLAG_SHORT_NAMES = 0 ->
+  roundtrip_ok TYPE_MATCH_STOPS_AT_LITERAL_END OSDEV_PRINT_WHILE o flags = true.
+Proof. exact (roundtrip_osdev_lemma TYPE_MATCH_STOPS_AT_LITERAL_END OSDEV_PRINT_WHILE). Qed.
+Print Assumptions type_roundtrip_osdev.
+Example type_roundtrip_osdev_nonvacuous :
+  In (mk HWLOC_OBJ_OS_DEVICE 0 0 0 0 0 51) rt_objs /\
+  type_text (mk HWLOC_OBJ_OS_DEVICE 0 0 0 0 0 51) HWLOC_OBJ_SNPRINTF_FLAG_LONG_NAMES = PrOk (lit "OSDev[Memory,Storage,OpenFabrics,Network]").
+Proof. split; [apply in_rt_osdev; vm_compute; discriminate|vm_compute; reflexivity]. Qed.
+
+(* numeric part: Group<depth> for EVERY unsigned depth (general proof over the decimal printer and the
+   strtol model, no enumeration), any flag word *)
+Theorem type_roundtrip_group :
+  forall o flags, to_type o = HWLOC_OBJ_GROUP -> to_gdepth o <= UINT_MAX ->
+  roundtrip_ok TYPE_MATCH_STOPS_AT_LITERAL_END OSDEV_PRINT_WHILE o flags = true.
+Proof. exact (roundtrip_group TYPE_MATCH_STOPS_AT_LITERAL_END OSDEV_PRINT_WHILE). Qed.
+Print Assumptions type_roundtrip_group.
+Example type_roundtrip_group_nonvacuous :
+  type_text (mk HWLOC_OBJ_GROUP 0 0 4294967294 0 0 0) 0 = PrOk (lit "Group4294967294").
+Proof. vm_compute. reflexivity. Qed.
+
+(* hwloc_obj_type_string(t) parses back to t, all HWLOC_OBJ_TYPE_MAX types *)
+Theorem type_string_roundtrip :
+  forall t, t < HWLOC_OBJ_TYPE_MAX -> type_string_ok TYPE_MATCH_STOPS_AT_LITERAL_END t = true.
+Proof. exact (type_string_roundtrip_lemma TYPE_MATCH_STOPS_AT_LITERAL_END). Qed.
+Print Assumptions type_string_roundtrip.
+
+(* ---- the text is a function of (type, printed attributes, flags): objects of a level that agree on
+   them print the same text, whatever their other fields ---- *)
+Theorem type_text_function_of_attrs :
+  forall o1 o2 flags, to_type o1 = to_type o2 -> tkey o1 = tkey o2 ->
+  type_snprintf_pieces o1 flags = type_snprintf_pieces o2 flags /\
+  forall init, type_snprintf init o1 flags = type_snprintf init o2 flags.
+Proof. exact (type_text_function_lemma OSDEV_PRINT_WHILE). Qed.
+Print Assumptions type_text_function_of_attrs.
+Example type_text_function_of_attrs_nonvacuous :
+  tkey (TO HWLOC_OBJ_L2CACHE 2 1 7 7 7 7) = tkey (TO HWLOC_OBJ_L2CACHE 2 1 0 1 2 3).
+Proof. reflexivity. Qed.
+
+(* ---- length contracts (Base/Snprintf.emit_all_contract) ---- *)
+(* whenever the printer returns (pieces ps), for EVERY caller buffer init (any size, [] = NULL/0):
+   returned value = untruncated length, nothing stored at an index >= size, NUL-terminated truncated
+   prefix when size > 0, bytes after the terminator untouched *)
+Theorem type_snprintf_contract :
+  forall o flags init ps, type_snprintf_pieces o flags = PrOk ps ->
+  exists st, type_snprintf init o flags = PrOk (Some st) /\ contract init (List.concat ps) st.
+Proof. exact (type_snprintf_contract_gen OSDEV_PRINT_WHILE). Qed.
+Print Assumptions type_snprintf_contract.
+
+(* objects of a loaded topology: I/O objects have total_memory = 0 (io_without_memory) *)
+Theorem attr_snprintf_contract :
+  forall a sep flags init ops, io_without_memory a -> attr_snprintf_ops a sep flags = PrOk ops ->
+  exists st, attr_snprintf init a sep flags = PrOk (Some st) /\ contract init (List.concat (map pop_text ops)) st.
+Proof. exact attr_snprintf_contract_lemma. Qed.
+Print Assumptions attr_snprintf_contract.
+Theorem attr_snprintf_returns :
+  forall a sep flags, (ao_type a = HWLOC_OBJ_BRIDGE -> ao_bdown a = HWLOC_OBJ_BRIDGE_PCI) ->
+  exists ops, attr_snprintf_ops a sep flags = PrOk ops.
+Proof. exact attr_ops_ok. Qed.
+Print Assumptions attr_snprintf_returns.
+(* outside that hypothesis the faithful model (and the C code: harness "latent" cases) returns a value that
+   is not the length of the text: a PCI device with total_memory = 1 MiB, MORE_ATTRS, 96-byte buffer returns
+   65 while the text has 52 bytes.  No loaded topology contains such an object. *)
+Theorem attr_snprintf_contract_io_memory_refuted :
+  exists st, attr_snprintf (repeat 170 96) IO_MEMORY_WITNESS [32] HWLOC_OBJ_SNPRINTF_FLAG_MORE_ATTRS = PrOk (Some st)
+    /\ ps_ret st = 65%nat /\ nth 52 (ps_buf st) 1 = 0 /\ ~ In 0 (firstn 52 (ps_buf st)).
+Proof. exact attr_io_memory_witness. Qed.
+Print Assumptions attr_snprintf_contract_io_memory_refuted.
+Example attr_snprintf_contract_nonvacuous :
+  io_without_memory (AO HWLOC_OBJ_L2CACHE 0 0 262144 64 8 0 0 0 0 0 0 0 0 0 0 0 0 [] false [] [(lit "Inclusive", lit "1")]) /\
+  exists ops, attr_snprintf_ops (AO HWLOC_OBJ_L2CACHE 0 0 262144 64 8 0 0 0 0 0 0 0 0 0 0 0 0 [] false [] [(lit "Inclusive", lit "1")])
+                                [32] HWLOC_OBJ_SNPRINTF_FLAG_MORE_ATTRS = PrOk ops /\
+              List.concat (map pop_text ops) = lit "size=256KiB linesize=64 ways=8 Inclusive=1".
+Proof. split; [intros [H|H]; discriminate H|eexists; split; vm_compute; reflexivity]. Qed.
+
+(* ---- hwloc_type_sscanf on arbitrary NUL-terminated strings: returns 0 or -1, never reads outside the
+   caller's block nor outside a keyword literal (current code, /repo c06b512) ---- *)
+Theorem type_sscanf_total :
+  forall s n asz, cstring s n -> bytes_ok s -> exists r, type_sscanf_cur s asz = Ok r.
+Proof. exact (fun s n asz Hs Hb => type_sscanf_total_gen true s n asz Hs Hb (or_introl eq_refl)). Qed.
+Print Assumptions type_sscanf_total.
+Example type_sscanf_total_nonvacuous : cstring E0_WITNESS 4 /\ bytes_ok E0_WITNESS.
+Proof. exact (conj (proj1 sscanf_e0_witness) (proj1 (proj2 sscanf_e0_witness))). Qed.
+(* regression witness of the defect fixed by /repo c06b512: on the previous code (variant false) the same
+   string made hwloc__type_match read past the literal "pu" *)
+Theorem type_sscanf_total_before_c06b512_refuted :
+  type_sscanf false E0_WITNESS (Some SIZEOF_ATTR_UNION) = Oob /\
+  type_sscanf_cur E0_WITNESS (Some SIZEOF_ATTR_UNION) = Ok (Some (HWLOC_OBJ_PU, AWnone)).
+Proof. exact (proj2 (proj2 sscanf_e0_witness)). Qed.
+Print Assumptions type_sscanf_total_before_c06b512_refuted.
+
+(* ---- termination of the OS-device printer ---- *)
+(* BEGIN osdev-loop (code as it is: `while (ostype)`, OSDEV_PRINT_WHILE = true).
+   Replaced by patches/verif-C11-after-osdev-fix.diff once patches/fix-C11-osdev-unknown-bit.diff is in /repo. *)
+(* REFUTED: for the word 4096 (XML osdev_type="4096") the loop state after one iteration equals the state
+   before, so the model runs out of fuel for every fuel value and the printer never returns unless
+   SHORT_NAMES is given. *)
+Theorem osdev_print_terminates_refuted :
+  UNKNOWN_BIT_WORD <= Strto.ULONG_MAX /\
+  (forall longn c acc, osdev_pass longn (UNKNOWN_BIT_WORD, c, acc) = (UNKNOWN_BIT_WORD, c, acc)) /\
+  (forall fuel longn c acc, osdev_while fuel longn (UNKNOWN_BIT_WORD, c, acc) = None) /\
+  (forall flags, flag_set flags HWLOC_OBJ_SNPRINTF_FLAG_SHORT_NAMES = false ->
+     type_snprintf_pieces (mk HWLOC_OBJ_OS_DEVICE 0 0 0 0 0 UNKNOWN_BIT_WORD) flags = PrLoop).
+Proof. exact osdev_loop_witness. Qed.
+Print Assumptions osdev_print_terminates_refuted.
+(* exactly that class: any bit outside names[] *)
+Theorem osdev_print_unknown_bit_never_returns :
+  forall os longn, N.ldiff os osdev_known_mask <> 0 -> osdev_normal_pieces OSDEV_PRINT_WHILE os longn = PrLoop.
+Proof. exact osdev_normal_unknown_loops. Qed.
+Print Assumptions osdev_print_unknown_bit_never_returns.
+(* PARTIAL: words made of known bits (or SHORT_NAMES); Bridges need downstream type PCI (assert) *)
+Theorem osdev_print_terminates_partial :
+  forall o flags,
+  (to_type o = HWLOC_OBJ_BRIDGE -> to_bdown o = HWLOC_OBJ_BRIDGE_PCI) ->
+  (to_type o = HWLOC_OBJ_OS_DEVICE ->
+     flag_set flags HWLOC_OBJ_SNPRINTF_FLAG_SHORT_NAMES = true \/ N.ldiff (to_os o) osdev_known_mask = 0) ->
+  exists ps, type_snprintf_pieces o flags = PrOk ps.
+Proof. exact (fun o flags Hb Ho => type_pieces_ok OSDEV_PRINT_WHILE o flags Hb (fun _ => Ho)). Qed.
+Print Assumptions osdev_print_terminates_partial.
+(* the model's fuel (2) is enough: more fuel never changes the answer *)
+Theorem osdev_while_fuel_irrelevant :
+  forall longn st k, osdev_while (2 + k) longn st = osdev_while 2 longn st.
+Proof. exact osdev_while_fuel. Qed.
+Print Assumptions osdev_while_fuel_irrelevant.
+(* END osdev-loop *)
